@@ -1,1 +1,4 @@
-
+//! Verification harness for lzma-rust2: drives the real code from TLC-derived scenarios and
+//! records traces for TLC trace validation. See /verif/DESIGN.md.
+pub mod gen;
+pub mod mt;
